@@ -474,7 +474,10 @@ func TestC14(t *testing.T) {
 
 	// ---- WithData never modifies its receiver
 	for _, d := range c14Data {
-		for _, v := range []any{nil, 5, "s", []int{1}, map[string]any{"k": 1}, make(chan int), func() {}, math.Inf(1)} {
+		for _, v := range []any{nil, 5, "s", []int{1}, map[string]any{"k": 1}, make(chan int), func() {}, math.Inf(1),
+			// strings whose Go quoting differs from their JSON quoting
+			"ctl\x01", "bell\a\v", "del\x7f", "tag\U000e0001", "q\"b\\s", "é\u2028<>&", "bad\xffutf8", "",
+			[]string{"\x02"}, map[string]string{"\x03": "\x04"}, json.RawMessage(" [ 1 ,\n 2 ] "), json.RawMessage(`{"a":`), []byte("bytes"), true, 1.5e300, int64(-1) << 63} {
 			orig := &jrpc2.Error{Code: 7, Message: "m"}
 			if d != "" {
 				orig.Data = json.RawMessage(d)
